@@ -146,7 +146,7 @@ class Mutator:
         ]
 
         if not candidate_paths:
-            return Maybe.nothing()
+            return Nothing
 
         path, tree = random.choice(candidate_paths)
         self_embedding_tree = random.choice(
